@@ -195,7 +195,9 @@ def gen(rng, tier):
               # argument evaluation order: positional before keyword, left to right (the difference of two successive
               # counter values is -1 whatever the counter was)
               "comb(nxt(x), b=nxt(z))", "comb(nxt(x), b=nxt(x))", "add3(comb(nxt(x), b=nxt(z)), c=1)",
-              "comb(nxt(x) + 0, b=nxt(z) * 1)"]:
+              "comb(nxt(x) + 0, b=nxt(z) * 1)",
+              # both operands of an operator are evaluated, also when they are spelled alike
+              "nxt(x) - nxt(x)", "(nxt(x) + 1) - (nxt(x) + 1)", "nxt(z) - nxt( z )", "x + (nxt(x) - nxt(x))"]:
         cases.append({"expr": e, "src": e, "wrapper": "I(%s)", "frame": fr_cache[0], "kind": "fixed"})
     return cases
 
